@@ -352,3 +352,16 @@ _c14_base = contracts
 
 def contracts():
     return _c14_base() + [edit_constant_contract()]
+
+
+# Pinning a constant at construction goes through the class's parameter table (`_cls_parameters`,
+# `_clear_params_cache`: verified for C13, part of this check as well).
+_c14_base2 = contracts
+
+
+def contracts():
+    from contracts import c13 as _c13
+    extra = [_c13.cls_parameters_contract(), _c13.clear_cache_contract()]
+    for c in extra:
+        c.prop = "C14"
+    return _c14_base2() + extra
